@@ -19,7 +19,7 @@ def frac(x):
 def make(rng, kind):
     """kind in fshock | mistake | plimit | halt | index | mixed"""
     nm = rng.choice([1, 2, 2, 3])
-    if kind in ("index",):
+    if kind in ("index", "haltm"):
         nm = rng.choice([2, 3])
     tick = 1.0
     p0s = [float(rng.choice([128, 256, 200, 160])) for _ in range(nm)]
@@ -35,10 +35,13 @@ def make(rng, kind):
         comps = list(names) if rng.random() < 0.6 else rng.sample(names, 2)
         idx_p0 = 192.0
         cfg["IDX"] = {"class": "ProbeIndexMarket", "tickSize": tick, "marketPrice": idx_p0, "markets": comps}
+        if rng.random() < 0.4:
+            # a declared fundamental of its own does not replace the share-weighted average of the components
+            cfg["IDX"]["fundamentalPrice"] = float(rng.choice([96, 150, 233]))
         cfg["simulation"]["markets"].append("IDX")
         allm.append("IDX")
         p0s.append(idx_p0)
-    wide = kind in ("plimit", "halt", "haltx", "mixed")
+    wide = kind in ("plimit", "halt", "haltx", "haltm", "mixed")
     spread = rng.choice([40, 80, 120]) if wide else rng.choice([2, 4, 8])
     script = {"pEmpty": rng.choice([0.0, 0.2]), "pCancel": 0.1, "pMarket": rng.choice([0.0, 0.15]), "maxBatch": rng.choice([1, 2]),
               "maxVol": rng.choice([1, 3]), "spread": spread, "ttls": rng.choice([[0], [0, 2, 5]]), "pOff": rng.choice([0.0, 0.2]),
@@ -62,6 +65,25 @@ def make(rng, kind):
                              "withOrderExecution": (s % 2 == 0) == first_exec, "withPrint": False, "maxNormalOrders": rng.choice([2, 3, 5]),
                              "maxHighFrequencyOrders": rng.choice([0, 1]), "highFrequencySubmitRate": rng.choice([0.0, 1.0])})
         cfg["simulation"]["sessions"] = sessions
+    if kind == "haltm":
+        # ONE rule over ALL markets, short execution sessions in a row, long halts: a halt is cut short by the end of its
+        # session, another market halts in the next session while the record of the first is still pending
+        ns = rng.randint(2, 3)
+        hl = rng.choice([2, 3, 4])
+        sessions = []
+        for s in range(ns):
+            sessions.append({"sessionName": "S%d" % s, "iterationSteps": rng.randint(2, 4) if s == 0 else hl + rng.randint(3, 8),
+                             "withOrderPlacement": True, "withOrderExecution": True, "withPrint": False, "maxNormalOrders": rng.choice([3, 5]),
+                             "maxHighFrequencyOrders": rng.choice([0, 1]), "highFrequencySubmitRate": rng.choice([0.0, 1.0])})
+        cfg["simulation"]["sessions"] = sessions
+        cfg["E0"] = {"class": "TradingHaltRule", "targetMarkets": list(names), "triggerChangeRate": rng.choice([0.0625, 0.03125]),
+                     "haltingTimeLength": hl}
+        sessions[0]["events"] = ["E0"]
+        return cfg
+    if has_index and rng.random() < 0.4:
+        s0 = rng.choice(sessions)
+        cfg["DUP"] = {"class": "ProbeEvent", "hooks": [], "dupRegister": ["IDX", rng.choice(cfg["IDX"]["markets"]), rng.randint(0, 2)]}
+        s0.setdefault("events", []).append("DUP")
     kinds = {"fshock": ["fshock"], "mistake": ["mistake"], "plimit": ["plimit"], "halt": ["halt"], "haltx": ["halt"], "index": ["fshock"],
              "mixed": rng.sample(["fshock", "mistake", "plimit", "halt"], rng.randint(2, 3))}[kind]
     n_ev = 0
